@@ -553,6 +553,16 @@ class Interp(EvalMixin, BuiltinMixin):
             if not run.branch(g):
                 raise PathEnd("guard false on iterate alternative")
             m0 = self.eval_measure(spec, sfr, auto_bound, idx, fr)
+            # step clauses: prev(e) is e at the start of this iteration
+            for (_sl, stext) in getattr(spec, "steps", []):
+                for n in ast.walk(parse_expr(stext)):
+                    if isinstance(n, ast.Call) and isinstance(n.func, ast.Name) and n.func.id == "prev":
+                        pv = self.ev(n.args[0], sfr)
+                        sfr.olds[id(n)] = pv.copy() if isinstance(pv, ListV) else pv
+
+            def check_steps():
+                for (sl, stext) in getattr(spec, "steps", []):
+                    run.oblige(lab(f"step.{sl}"), zbool(truth(self.ev(parse_expr(stext), sfr))), kind="loop-preserve")
             log = []
             self.track.append(log)
             try:
@@ -564,8 +574,10 @@ class Interp(EvalMixin, BuiltinMixin):
                     self.track.pop()
             except BreakEx:
                 self.check_writes(log, pre, havoced, lab)
+                check_steps()
                 return
             self.check_writes(log, pre, havoced, lab)
+            check_steps()
             for (il, text) in invs:
                 run.oblige(lab(f"{il}.preserved"), eval_inv(text), kind="loop-preserve")
             m1 = self.eval_measure(spec, sfr, auto_bound, idx, fr)
